@@ -239,12 +239,27 @@ class Run:
                              'cases_emitted': len(r.cases)})
         return r
 
-    def harness(self, check, cases, extra=None, timeout=3000, tag=None):
+    def harness(self, check, cases, extra=None, timeout=3000, tag=None, seeds=1):
+        """seeds > 1 (thorough tiers): the whole replay is repeated with further seeds - other keys, nonces, salts, payload octets and
+        value-dependent encodings; the summaries are added up and the trace files of the first run are kept"""
         tag = tag or check
         cpath = os.path.join(self.work, f'{tag}_cases.ndjson')
         opath = os.path.join(self.work, f'{tag}_out.ndjson')
         write_ndjson(cpath, cases)
         body, summary, dt = run_harness(check, cpath, opath, self.tier, self.seed, extra, timeout)
+        for k in range(1, seeds):
+            op2 = os.path.join(self.work, f'{tag}_out_seed{k}.ndjson')
+            b2, s2, _ = run_harness(check, cpath, op2, self.tier, self.seed + 7919 * k, extra, timeout)
+            for r in b2:
+                if isinstance(r.get('case'), dict):
+                    r['case']['harness_seed'] = self.seed + 7919 * k
+            body += b2
+            summary['evaluations'] += s2['evaluations']
+            summary['failed'] = summary.get('failed', 0) + s2.get('failed', 0)
+            if isinstance(summary.get('extra', {}).get('nontrivial'), int):
+                summary['extra']['nontrivial'] += s2.get('extra', {}).get('nontrivial', 0)
+        if seeds > 1:
+            self.notes['harness_seeds'] = seeds
         self.evaluations += summary['evaluations']
         for r in body:
             if not r.get('ok', False):
